@@ -2021,7 +2021,9 @@ func (p *printer) funcBodyUnnamed(headerSize int, sep whiteSpace, b *ast.BlockSt
 				p.linebreak(p.lineFor(s.Pos()), 1, ignore, p.linesFrom(line) > 0)
 			}
 			p.recordLine(&line)
-			p.stmt(s, true && i == len(b.List)-1)
+			// the statements of the shadow entry are not followed by a closing
+			// brace: a trailing label keeps its empty statement (`L: ;`)
+			p.stmt(s, false)
 			// labeled statements put labels on a separate line, but here
 			// we only care about the start line of the actual statement
 			// without label - correct line for each label
